@@ -151,16 +151,20 @@ func instantiateAt(cmd string, sks []skolem) string {
 				return &sx{list: []*sx{x.list[0], x.list[1], pos(x.list[2])}}
 			}
 		case "forall":
-			if len(x.list) == 3 && len(x.list[1].list) == 1 && x.list[2].head() != "!" {
+			if len(x.list) == 3 && len(x.list[1].list) == 1 {
 				b := x.list[1].list[0]
 				if len(b.list) != 2 {
 					return x
+				}
+				body := x.list[2]
+				if body.head() == "!" && len(body.list) >= 2 {
+					body = body.list[1] // (! B :pattern ...): the pattern is only a hint
 				}
 				sort := b.list[1].String()
 				var insts []*sx
 				for _, sk := range sks {
 					if sk.sort == sort {
-						insts = append(insts, subst(x.list[2], map[string]*sx{b.list[0].atom: atomSx(sk.name)}))
+						insts = append(insts, subst(body, map[string]*sx{b.list[0].atom: atomSx(sk.name)}))
 					}
 				}
 				if len(insts) == 0 {
